@@ -14,7 +14,7 @@ from core import log
 
 ASSUMPTIONS = [
     "keys reach the editor as term::Key values: crossterm's event decoding, raw mode and the drawing of the prompt are outside the model (the prompt is drawn for the corpus and the random sequences, bypassed for the exhaustive bulk)",
-    "history entries are not blank (lace only ever stores non-blank lines); with a blank entry in a hand-edited history file Up+Enter trips read_line's debug_assert in debug builds - C20_total carries this as its hypothesis for dbg = true",
+    "history entries are not blank: lace only ever stores non-blank lines and (since the repair F33) skips blank lines when it loads the history file, which the real-terminal stage checks with hand-edited files; C20_total carries 'no blank entry' as its hypothesis for dbg = true",
     "the history file is not modelled (Terminal::verif_new has none); usize arithmetic is unbounded in the model (all counts are bounded by the line length)",
     "char::is_whitespace / char::is_alphanumeric are parameters of the theorems; the extracted driver's tables are compared with Rust's on every character the generator can emit (mode-2 case)",
 ]
@@ -299,6 +299,8 @@ def correspondence(ctx, violations, known_hits):
                     "note": "MODEL = SPEC is proved for all key lists (C20_submit), so a key sequence on which the "
                             "implementation departs from the model is one on which it departs from the reference "
                             "editor (or panics / leaves the line with its cursor)"})
+    real = pty_stage(ctx, violations)
+    evaluations += real["sessions"]
     ctx.cleanup()
     nalpha = len(ALPHABET)
     nexh = sum(nalpha ** n for n in range(maxlen + 1)) * len(HISTORIES)
@@ -323,8 +325,160 @@ def correspondence(ctx, violations, known_hits):
                 "moved left/right, text changed, focus moved, number of commands submitted, history grew)) triples",
         "key_kind_histogram": khist, "origin_histogram": ohist, "sequence_length_histogram": lhist,
         "class_table_code_points_checked": class_checked,
-        "profiles": profiles, "samples": samples, "mismatches": nviol,
+        "profiles": profiles, "samples": samples, "mismatches": nviol, "real_terminal": real,
     }
+
+
+# ------------------------------------------------------------------ the real terminal
+
+KEY_BYTES = {ENTER: b"\r", BACKSPACE: b"\x7f", DELETE: b"\x1b[3~", LEFT: b"\x1b[D", RIGHT: b"\x1b[C", UP: b"\x1b[A",
+             DOWN: b"\x1b[B", CTRL_LEFT: b"\x1b[1;5D", CTRL_RIGHT: b"\x1b[1;5C"}
+
+
+def pty_session(exe, work, hist_file_text, keys, idx, slow=1.0):
+    """One `lace debug --minimal` (built WITHOUT the hooks) on a pseudo-terminal: crossterm's raw mode and key decoding, the
+    drawing of the prompt and the history FILE are all real.  -> (lines of the history file afterwards, exit status or None,
+    tail of the terminal output)"""
+    import os, pty, select, time, signal
+    d = os.path.join(work, "pty%d" % idx)
+    os.makedirs(os.path.join(d, "cache"), exist_ok=True)
+    open(os.path.join(d, "p.asm"), "w").write("and r1 r1 #0\nhalt\n")
+    hf = os.path.join(d, "cache", "lace-debugger-history")
+    with open(hf, "w", encoding="utf-8") as f:
+        f.write(hist_file_text)
+    env = dict(os.environ, HOME=d, XDG_CACHE_HOME=os.path.join(d, "cache"), TERM="xterm", RUST_BACKTRACE="0", NO_COLOR="1")
+    pid, fd = pty.fork()
+    if pid == 0:
+        os.chdir(d)
+        os.execve(exe, [exe, "debug", "--minimal", "p.asm"], env)
+    out = bytearray()
+
+    def drain(quiet, limit):
+        t0 = last = time.time()
+        while time.time() - t0 < limit:
+            r, _, _ = select.select([fd], [], [], 0.05)
+            if r:
+                try:
+                    data = os.read(fd, 65536)
+                except OSError:
+                    return False
+                if not data:
+                    return False
+                out.extend(data)
+                last = time.time()
+            elif time.time() - last >= quiet:
+                return True
+        return True
+
+    alive = drain(0.6 * slow, 6.0 * slow)
+    for k in keys:
+        if not alive:
+            break
+        b = KEY_BYTES.get(k)
+        if b is None:
+            b = chr(k - 0x10).encode("utf-8")
+        try:
+            os.write(fd, b)
+        except OSError:
+            alive = False
+            break
+        alive = drain(0.5 * slow, 4.0 * slow) if k == ENTER else drain(0.04 * slow, 0.5 * slow)
+    status = None
+    t0 = time.time()
+    while time.time() - t0 < 6.0:
+        try:
+            p, st = os.waitpid(pid, os.WNOHANG)
+        except ChildProcessError:
+            break
+        if p:
+            status = os.waitstatus_to_exitcode(st)
+            break
+        drain(0.05, 0.2)
+    if status is None:
+        try:
+            os.kill(pid, signal.SIGKILL); os.waitpid(pid, 0)
+        except OSError:
+            pass
+    try:
+        os.close(fd)
+    except OSError:
+        pass
+    lines = open(hf, encoding="utf-8", errors="replace").read().split("\n")
+    if lines and lines[-1] == "":
+        lines.pop()
+    return lines, status, bytes(out[-600:]).decode("utf-8", "replace")
+
+
+def pty_stage(ctx, violations):
+    """A handful of sessions through the REAL terminal path.  Each key list is followed by enough Backspace/Delete to
+    empty the line and by `exit` Enter (all of it given to the model too); afterwards the history FILE must hold exactly
+    the model's final history, and the process must have ended with status 0 - no panic, whatever the history file held
+    (blank lines in a hand-edited file included)."""
+    import os
+    exe = ctx.cli()
+    work = os.path.join(ctx.work, "c20pty")
+    os.makedirs(work, exist_ok=True)
+    E = [ch(c) for c in "exit"]
+    clear = [BACKSPACE] * 24 + [DELETE] * 24
+    H = ["move r1 7", "print r"]
+    sessions = [
+        (H, [UP, UP, DOWN, ch("1"), ENTER]),
+        (H, [ch("r"), ch("e"), ch("g"), UP, UP, DOWN, ch("1"), ENTER]),
+        ([], [ch("é"), CTRL_RIGHT, ch("a"), ENTER]),
+        ([], [ch("a"), ch(" "), ch(" "), CTRL_LEFT, CTRL_RIGHT, ch("+"), ENTER]),
+        (["ab +é", "c 😀 d"], [UP, CTRL_LEFT, CTRL_LEFT, ch("x"), CTRL_RIGHT, DELETE, ENTER, UP, UP, LEFT, BACKSPACE, ENTER]),
+        (H, [ch("p"), ch(" "), ch("r"), ch("0"), LEFT, LEFT, LEFT, LEFT, DELETE, RIGHT, RIGHT, BACKSPACE, ch("1"), UP, DOWN, ENTER]),
+        ([], [ch(" "), ENTER, ch("😀"), LEFT, ch("é"), RIGHT, RIGHT, ch(";"), ch("b"), ENTER, UP, ENTER]),
+        # a history FILE with blank lines (hand-edited): they are not entries; Up / Enter on what remains is harmless
+        (["reg", "   ", "", "print r1"], [UP, ENTER, UP, UP, ENTER, UP, UP, UP, UP, ENTER]),
+        (["", " "], [UP, ENTER, ch("r"), ch("e"), ch("g"), ENTER]),
+    ]
+    if ctx.tier != "quick":
+        import random as _r
+        rnd = _r.Random(ctx.seed + 9)
+        for _ in range(40):
+            hist = [random_text(rnd, True).replace("\t", " ") for _ in range(rnd.choice([0, 1, 2, 3]))]
+            keys = [rnd.choice([ch(rnd.choice("ab 1+é😀;")), BACKSPACE, DELETE, LEFT, RIGHT, CTRL_LEFT, CTRL_RIGHT, UP, DOWN, ENTER]) for _ in range(rnd.randrange(3, 18))]
+            sessions.append((hist, keys))
+    cases = []
+    for hist, keys in sessions:
+        entries = [h for h in hist if h.strip() != ""]            # what the file's lines amount to as history entries
+        cases.append(case_line(0, 1, 1, entries, keys + clear + E + [ENTER]))
+    model = ctx.run_model(cases, tag="c20pty")
+    import concurrent.futures
+    with concurrent.futures.ThreadPoolExecutor(4) as pool:
+        futs = [pool.submit(pty_session, exe, work, "".join(h + "\n" for h in hist), keys + clear + E + [ENTER], i)
+                for i, (hist, keys) in enumerate(sessions)]
+        got = [f.result() for f in futs]
+    n = bad = retried = 0
+    for si, ((hist, keys), m, (lines, status, tail)) in enumerate(zip(sessions, model, got)):
+        last = [int(x, 16) for x in m[-1].split()] if m else []
+        want = None
+        if last and last[0] == 9:
+            want, i = [], 2
+            for _ in range(last[1]):
+                k = last[i]
+                want.append("".join(chr(c) for c in last[i + 1:i + 1 + k]))
+                i += 1 + k
+        n += 1
+        # the file keeps the lines it had (blank ones too); what is compared is the sequence of non-blank lines
+        got_entries = [l for l in lines if l.strip() != ""]
+        for slow in (3.0, 8.0):
+            # keys that arrive while the terminal is between two prompts (raw mode off) are cooked by the line discipline:
+            # a session that disagrees is run again, alone and much more slowly, before it counts
+            if want is not None and status == 0 and got_entries == want:
+                break
+            retried += 1
+            lines, status, tail = pty_session(exe, work, "".join(h + "\n" for h in hist), keys + clear + E + [ENTER], 1000 + si * 10 + int(slow), slow=slow)
+            got_entries = [l for l in lines if l.strip() != ""]
+        if want is None or status != 0 or got_entries != want:
+            bad += 1
+            if bad <= 4:
+                violations.append({"kind": "real-terminal-session", "history_file_lines": hist, "keys": [key_name(k) for k in keys] + ["(clear line)", "exit", "Enter"],
+                                   "exit_status": status, "history_file_after": lines, "model_final_history": want,
+                                   "terminal_tail": tail[-300:]})
+    return {"sessions": n, "mismatches": bad, "slow_reruns": retried,
+            "rule": "real `lace debug --minimal` on a pseudo-terminal (binary without hooks: crossterm raw mode and key decoding, prompt drawing, history file): history file afterwards = the model's final history, exit status 0; history files with blank lines included"}
 
 
 def shrink(ctx, case, prof, kind):
